@@ -127,36 +127,37 @@ var pointCodes = map[string]int{
 }
 
 type Cfg struct {
-	Mode        int // 0 free, 1 gated
-	Codec       int // 1 | 2
-	Cipher      bool
-	Ocap        int
-	Icap        int
-	Ecap        int // < 0: nil error channel
-	HasWriter   bool
-	HasReader   bool
-	Senders     [][]PktSpec
-	Closers     []bool // true: Close(), false: ForceClose(err)
-	Input       []InItem
-	PeerRead    int // free mode: 0 prompt, 1 slow, 2 only after the close began, 3 very slow (4 KiB per ms), 4 only after Close returned (and the GC cycles), 5 pauses longer than the idle limit (1.6 s), then drains
-	InConsumer  int // 0 nobody drains inbound, 1 drained (free: goroutine; gated: finishing policy / script)
-	Seed        uint64
-	Script      []Dir
-	CloseAfter  int // free mode: 0 close when all senders returned; 1 close concurrently with senders
-	LateSend    int // after everything: number of extra SendPacket calls expected to be refused
-	FailAfter   int // >= 0: the connection's socket is wrapped; every Write after the first FailAfter ones fails (-1: plain TCP conn)
-	Immediate   int // free mode: Go(); SendPacket x N; Close() back to back on one goroutine, no settling, no perturbation
-	MaxProcs    int // free mode: run the scenario with GOMAXPROCS set to this (0: leave)
-	ReadTimeout int // seconds for qnet.TConnReadTimeout during the scenario (0: 60)
-	LateInput   int // free mode: the last LateInput items of Input are written only after the close began
-	WaitInput   int // free mode: the closers start only after the peer has written all of its input (the peer is silent while we close)
-	SmallBuf    int // 64 KiB socket buffers on both ends (a backlog stays in the kernel send queue)
-	Transport   int // 0 loopback TCP, 1 unix domain socket
-	ViaServer   int // 1: the connection is accepted by a qnet.TcpServer and the endpoint comes from its backlog channel
-	GCAfter     int // free mode: after Close returned drop every reference to the endpoint and force two GC cycles before the (late) peer starts reading
-	Reentrant   int // free mode: the LAST sender is driven by the inbound consumer (one reply per delivered packet, sent through pkt.Endpoint()), the LAST closer by the error-channel consumer (it calls Close on the error's endpoint)
-	BurstEvery  int // free mode: every sender pauses 3 ms after each BurstEvery packets (fill, drain, reuse)
-	Chunked     int // free mode: the peer writes its input as one byte stream cut into random chunks (frames share segments / span segments)
+	Mode          int // 0 free, 1 gated
+	Codec         int // 1 | 2
+	Cipher        bool
+	Ocap          int
+	Icap          int
+	Ecap          int // < 0: nil error channel
+	HasWriter     bool
+	HasReader     bool
+	Senders       [][]PktSpec
+	Closers       []bool // true: Close(), false: ForceClose(err)
+	Input         []InItem
+	PeerRead      int // free mode: 0 prompt, 1 slow, 2 only after the close began, 3 very slow (4 KiB per ms), 4 only after Close returned (and the GC cycles), 5 pauses longer than the idle limit (1.6 s), then drains
+	InConsumer    int // 0 nobody drains inbound, 1 drained (free: goroutine; gated: finishing policy / script)
+	Seed          uint64
+	Script        []Dir
+	CloseAfter    int // free mode: 0 close when all senders returned; 1 close concurrently with senders
+	LateSend      int // after everything: number of extra SendPacket calls expected to be refused
+	FailAfter     int // >= 0: the connection's socket is wrapped; every Write after the first FailAfter ones fails (-1: plain TCP conn)
+	Immediate     int // free mode: Go(); SendPacket x N; Close() back to back on one goroutine, no settling, no perturbation
+	MaxProcs      int // free mode: run the scenario with GOMAXPROCS set to this (0: leave)
+	ReadTimeout   int // seconds for qnet.TConnReadTimeout during the scenario (0: 60)
+	LateInput     int // free mode: the last LateInput items of Input are written only after the close began
+	WaitInput     int // free mode: the closers start only after the peer has written all of its input (the peer is silent while we close)
+	SmallBuf      int // 64 KiB socket buffers on both ends (a backlog stays in the kernel send queue)
+	Transport     int // 0 loopback TCP, 1 unix domain socket
+	ViaServer     int // 1: the connection is accepted by a qnet.TcpServer and the endpoint comes from its backlog channel
+	GCAfter       int // free mode: after Close returned drop every reference to the endpoint and force two GC cycles before the (late) peer starts reading
+	Reentrant     int // free mode: the LAST sender is driven by the inbound consumer (one reply per delivered packet, sent through pkt.Endpoint()), the LAST closer by the error-channel consumer (it calls Close on the error's endpoint)
+	ConsumerPause int // free mode: the inbound consumer sleeps this many ms before its first receive and again after it has taken Icap+1 packets, then drains
+	BurstEvery    int // free mode: every sender pauses 3 ms after each BurstEvery packets (fill, drain, reuse)
+	Chunked       int // free mode: the peer writes its input as one byte stream cut into random chunks (frames share segments / span segments)
 }
 
 func (c Cfg) Sx() Sx {
@@ -183,7 +184,7 @@ func (c Cfg) Sx() Sx {
 	return List(Int(int64(c.Mode)), Int(int64(c.Codec)), Bool(c.Cipher), Int(int64(c.Ocap)), Int(int64(c.Icap)),
 		Int(int64(c.Ecap)), Bool(c.HasWriter), Bool(c.HasReader), ListOf(snd), ListOf(cls), ListOf(in),
 		Int(int64(c.PeerRead)), Int(int64(c.InConsumer)), Uint(c.Seed), ListOf(sc), Int(int64(c.CloseAfter)),
-		Int(int64(c.LateSend)), Ints(int64(c.FailAfter), int64(c.Immediate), int64(c.MaxProcs), int64(c.ReadTimeout), int64(c.LateInput), int64(c.WaitInput), int64(c.SmallBuf), int64(c.Transport), int64(c.ViaServer), int64(c.GCAfter), int64(c.Chunked), int64(c.Reentrant), int64(c.BurstEvery)))
+		Int(int64(c.LateSend)), Ints(int64(c.FailAfter), int64(c.Immediate), int64(c.MaxProcs), int64(c.ReadTimeout), int64(c.LateInput), int64(c.WaitInput), int64(c.SmallBuf), int64(c.Transport), int64(c.ViaServer), int64(c.GCAfter), int64(c.Chunked), int64(c.Reentrant), int64(c.BurstEvery), int64(c.ConsumerPause)))
 }
 
 func CfgOfSx(s Sx) Cfg {
@@ -224,6 +225,9 @@ func CfgOfSx(s Sx) Cfg {
 		}
 		if x.Len() > 12 {
 			c.Reentrant, c.BurstEvery = x.At(11).AsInt(), x.At(12).AsInt()
+		}
+		if x.Len() > 13 {
+			c.ConsumerPause = x.At(13).AsInt()
 		}
 	}
 	return c
